@@ -14,12 +14,14 @@ N_QUICK, N_THOROUGH = 90000, 2000000
 T_QUICK, T_THOROUGH = 70, 1500
 CLASSES = ["index-get", "index-set", "negative-index", "length", "shape", "int-length", "string-too-long",
            "bigger-items", "non-member", "wrong-context", "offset-no-buffer", "construct-shape", "struct-with-other-length",
-           "struct-one-refused-field", "extra-dimensions", "mixed-bad-item", "sequence-for-scalar"]
+           "struct-one-refused-field", "extra-dimensions", "mixed-bad-item", "sequence-for-scalar",
+           "construct-refused-while-writing"]
 FLOORS = {"attempts": 20000, "raised": 15000, "state_checks": 20000}
 FLOORS.update({"class:" + c: 300 for c in CLASSES})
 FLOORS["class:struct-with-other-length"] = 80
 FLOORS["class:struct-one-refused-field"] = 80
 FLOORS["class:mixed-bad-item"] = 100
+FLOORS["class:construct-refused-while-writing"] = 200
 FLOORS["union_object_at_offset_without_buffer"] = 300
 FLOORS.update({"negative_index_assignments": 100, "non_member_from_same_family": 50, "allocations_after_refusal": 5000,
                "hybrid_copy_with_contradictory_destination": 300, "refused_construction_at_explicit_offset": 100})
@@ -86,7 +88,8 @@ def run_case(w, rng):
                 w.count("raised")
             # state must be unchanged whatever happened
             after = bufmon.raw_bytes(env.buf)
-            changed = [(lo, hi) for lo, hi in live if before[lo:hi] != after[lo:hi]]
+            ex = getattr(fn, "exempt", None)
+            changed = [(lo, hi) for lo, hi in live if before[lo:hi] != after[lo:hi] and not (ex and ex[0] <= lo and hi <= ex[1])]
             bad = []
             for name, obj, tt, mm in (("object", h, t, c.mv), ("neighbour", nh, nc.t, nc.mv)):
                 cm = compare(tt, mm, obj, full=False)
@@ -125,6 +128,18 @@ def _hybrid():
     if not _HY:
         _HY.append(type("XvC11Hybrid", (xo.HybridClass,), {"_xofields": {"a": xo.Float64, "b": xo.Int64[:]}}))
     return _HY[0]
+
+
+def _index(cur, idx):
+    for i in idx:
+        cur = cur[i]
+    return cur
+
+
+def _setindex(cur, idx, val):
+    for i in idx[:-1]:
+        cur = cur[i]
+    cur[idx[-1]] = val
 
 
 def _poskind(path):
@@ -398,6 +413,49 @@ def _plan(cls_, rng, c, allnodes, env):
         def fn(base):
             c.cls(arg, _offset=rng.choice([0, 8, 64]))
         return "root", "T(value, _offset=8) without buffer", fn
+    if cls_ == "construct-refused-while-writing":
+        # the value is accepted by the size planning and refused only while it is being written (a pair where a number
+        # is expected, deep inside); the object is placed by the allocator or at an explicit offset inside a block the
+        # caller reserved
+        leaves = [(p, nt, nv) for p, l, nt, nv in nodes(t, c.mv, through_refs=False) if nt["k"] == "sc" and p]
+        if not leaves:
+            return None
+        p, nt, nv = rng.choice(leaves)
+        from xv.model import set_model
+
+        class _Pair(list):
+            pass
+        bad = plain(t, c.mv, rng)
+        # walk the plain value down to the leaf and replace it
+        cur = bad
+        for st in p[:-1]:
+            cur = cur[st[1]] if st[0] == "f" else _index(cur, st[1])
+        last = p[-1]
+        v = nv.item()
+        try:
+            if last[0] == "f":
+                cur[last[1]] = [v, v]
+            else:
+                _setindex(cur, last[1], [v, v])
+        except Exception:
+            return None
+        kw = dict(_buffer=env.buf)
+        where = "allocator-chosen offset"
+        if rng.random() < 0.6:
+            need = max(64, plan_size(t, c.mv) + 64)
+            blk = env.buf.allocate(need)
+            kw["_offset"] = blk + 8
+            env.repoison()
+            where = "explicit offset inside a reserved block"
+            _W[0].count("refused_construction_at_explicit_offset")
+
+        def fn(base):
+            c.cls(bad, **kw)
+        if "_offset" in kw:
+            # the block reserved for the object that could not be built holds no existing object: whatever the failed
+            # construction left there does not count
+            fn.exempt = (blk, blk + need)
+        return "root", f"T(value with a pair where a number is expected) at {where}", fn
     if cls_ == "construct-shape":
         cand = [n for n in [t] if n["k"] == "ar" and any(d is not None for d in n["dims"]) and 0 not in c.mv.shape]
         if not cand:
